@@ -120,11 +120,16 @@ class C04(Prop):
             'mode': st.just('across_updates'),
             'subject': st.sampled_from(['custom', 'custom', 'service']),
             'fc': st.sampled_from(['1', '2', '3', '-1']), 'fp': st.sampled_from(['0', '0', '100', '3600000']),
+            # the tracepoint asks for further actions besides the snapshot (each action has its own counters)
+            'also': st.lists(st.sampled_from(['metric', 'span', 'log']), max_size=2, unique=True),
             'ops': st.lists(st.one_of(st.tuples(st.just('hit'), st.sampled_from([0, 1, 99, 100, 5000])),
                                       st.tuples(st.just('hit'), st.sampled_from([0, 1, 99, 100, 5000])),
                                       st.tuples(st.just('reg_other'), st.integers(0, 2)),
                                       st.tuples(st.just('unreg_other'), st.integers(0, 2)),
                                       st.tuples(st.just('svc_update'), st.integers(0, 3)),
+                                      # the same, but the task that hands the new configuration to the trigger handler
+                                      # only gets its turn after the next hit (hits still reach the previous objects)
+                                      st.tuples(st.just('svc_update_lazy'), st.integers(0, 3)),
                                       st.tuples(st.just('nochange'), st.just(0))).map(list),
                             min_size=3, max_size=14),
         })
@@ -399,10 +404,18 @@ class C04(Prop):
         cfg = lab.make_cfg({'APP_ROOT': '/app'})
         d = Deep(cfg)
         d.task_handler._pool.shutdown(wait=False)
-        d.task_handler._pool = lab.InlinePool()
+        pool = lab.ManualPool()
+        d.task_handler._pool = pool
         push = lab.RecPush()
         d.trigger_handler._push_service = push
         args = {'fire_count': recipe['fc'], 'fire_period': recipe['fp']}
+        also = recipe.get('also') or []
+        if 'span' in also:
+            args['span'] = 'line'
+        if 'log' in also:
+            args['log_msg'] = 'v={v}'
+        if also:
+            out.cls('across_updates_several_actions')
         subject_id = 'svc-subject'
         upd = [0]
 
@@ -411,13 +424,19 @@ class C04(Prop):
             resp = [TracePointConfig(ID='svc-other-%d-%d' % (upd[0], i), path=PATH, line_number=LINE + 10 + i,
                                      args={'fire_count': '-1', 'fire_period': '0'}) for i in range(n_others)]
             if recipe['subject'] == 'service':
-                resp.insert(n_others // 2, TracePointConfig(ID=subject_id, path=PATH, line_number=LINE, args=dict(args)))
+                from deepproto.proto.tracepoint.v1.tracepoint_pb2 import Metric, MetricType
+                resp.insert(n_others // 2, TracePointConfig(
+                    ID=subject_id, path=PATH, line_number=LINE, args=dict(args),
+                    metrics=[Metric(name='m_subject', type=MetricType.COUNTER)] if 'metric' in also else []))
             d.config.tracepoints.update_new_config(upd[0], 'H%d' % upd[0], convert_response(resp))
+        lazy = [False]
         if recipe['subject'] == 'custom':
-            handle = d.register_tracepoint(PATH, LINE, dict(args), [], [])
+            handle = d.register_tracepoint(PATH, LINE, dict(args), [],
+                                           [MetricDefinition('m_subject', 'counter')] if 'metric' in also else [])
             subject_id = handle.get_tracepoint_config().id if hasattr(handle, 'get_tracepoint_config') else None
         else:
             service_config(1)
+        pool.run_all()
         model = Limiter(int(recipe['fc']), int(recipe['fp']))
         gen = lab.frame_at(PATH, LINE, 'target', {'v': 1})
         others = {}
@@ -438,6 +457,9 @@ class C04(Prop):
                         allowed += 1
                     else:
                         refused += 1
+                    if lazy[0]:
+                        lazy[0] = False
+                        pool.run_all()
                     if got != (1 if exp else 0):
                         why = 'a due hit did not collect' if exp else (
                             'collected beyond fire_count' if not (model.fc == -1 or model.count < model.fc)
@@ -459,9 +481,17 @@ class C04(Prop):
                         h.unregister()
                 elif op[0] == 'svc_update':
                     service_config(op[1])
+                elif op[0] == 'svc_update_lazy':
+                    pool.run_all()
+                    service_config(op[1])
+                    lazy[0] = True
+                    out.cls('hit_between_accepting_and_installing_a_configuration')
+                    continue
                 elif op[0] == 'nochange':
                     upd[0] += 1
                     d.config.tracepoints.update_no_change(upd[0])
+                if not lazy[0]:
+                    pool.run_all()
         except BaseException as e:      # noqa
             out.violate('across updates: raised %s' % lab.exc_bucket(e))
         finally:
